@@ -78,6 +78,68 @@ func InstrumentSource(path string, src []byte) ([]byte, int, error) {
 		}
 		return true
 	})
+	// second pass: a select with several communication clauses is resolved by the Go runtime at random
+	// when more than one is ready. Put the decision under the explorer:
+	//   switch verifChoose(loc, n) { case k: select { case <comm k>: <body k>; default: <the original select> } ... }
+	// alternative k tries clause k first (without blocking) and otherwise falls back to the original
+	// select, in which at most the other clauses can be ready at that moment.
+	selects := 0
+	done := map[*ast.BlockStmt]bool{} // select bodies already wrapped (the wrapper contains the original select again)
+	rewrite := func(list []ast.Stmt) {
+		for i, st := range list {
+			sel, ok := st.(*ast.SelectStmt)
+			if !ok || done[sel.Body] {
+				continue
+			}
+			done[sel.Body] = true
+			var comms []*ast.CommClause
+			for _, c := range sel.Body.List {
+				if cc, ok := c.(*ast.CommClause); ok && cc.Comm != nil {
+					comms = append(comms, cc)
+				}
+			}
+			if len(comms) < 2 {
+				continue
+			}
+			selects++
+			pos := fset.Position(sel.Pos())
+			sw := &ast.SwitchStmt{
+				Tag: &ast.CallExpr{Fun: ast.NewIdent("verifChoose"), Args: []ast.Expr{
+					&ast.BasicLit{Kind: token.STRING, Value: fmt.Sprintf("%q", fmt.Sprintf("%s:%d:select", base, pos.Line))},
+					&ast.BasicLit{Kind: token.INT, Value: fmt.Sprint(len(comms))},
+				}},
+				Body: &ast.BlockStmt{},
+			}
+			for k, cc := range comms {
+				first := &ast.SelectStmt{Body: &ast.BlockStmt{List: []ast.Stmt{
+					&ast.CommClause{Comm: cc.Comm, Body: cc.Body},
+					&ast.CommClause{Comm: nil, Body: []ast.Stmt{&ast.SelectStmt{Body: sel.Body}}},
+				}}}
+				clause := &ast.CaseClause{Body: []ast.Stmt{first}}
+				if k > 0 {
+					clause.List = []ast.Expr{&ast.BasicLit{Kind: token.INT, Value: fmt.Sprint(k)}}
+				}
+				sw.Body.List = append(sw.Body.List, clause)
+			}
+			// the default clause (alternative 0) last
+			sw.Body.List = append(sw.Body.List[1:], sw.Body.List[0])
+			list[i] = sw
+		}
+	}
+	ast.Inspect(f, func(node ast.Node) bool {
+		switch v := node.(type) {
+		case *ast.BlockStmt:
+			if !clauseBlocks[v] {
+				rewrite(v.List)
+			}
+		case *ast.CaseClause:
+			rewrite(v.Body)
+		case *ast.CommClause:
+			rewrite(v.Body)
+		}
+		return true
+	})
+	_ = selects
 	// comments would be re-attached at wrong places by the printer after the edit; drop them
 	f.Comments = nil
 	var buf bytes.Buffer
@@ -97,6 +159,17 @@ func verifYield(loc string) {
 	if h := VerifYieldHook; h != nil {
 		h(loc)
 	}
+}
+
+// VerifChooseHook decides which clause of a select with n communication
+// clauses is tried first (0 outside of the scheduler: source order).
+var VerifChooseHook func(loc string, n int) int
+
+func verifChoose(loc string, n int) int {
+	if h := VerifChooseHook; h != nil {
+		return h(loc, n)
+	}
+	return 0
 }
 `
 
